@@ -138,6 +138,16 @@ theorem encVals_eq_mapM (vs : List Value) : encVals vs = vs.mapM encVal := by
     cases encVal v <;> simp only [bind, Except.bind, pure, Except.pure]
     cases vs.mapM encVal <;> rfl
 
+theorem encVals_length : ∀ (vs : List Value) (js : List Json), encVals vs = .ok js → js.length = vs.length
+  | [], js, h => by
+    simp only [encVals, pure, Except.pure, Except.ok.injEq] at h
+    subst h; rfl
+  | v :: vs, js, h => by
+    rw [encVals_eq_mapM] at h
+    obtain ⟨y, ys, _, h3, rfl⟩ := (ExceptList.mapM_ok_cons_iff encVal v vs js).1 h
+    rw [← encVals_eq_mapM] at h3
+    simp [encVals_length vs ys h3]
+
 theorem decVal_succ_obj (fnSig) (fuel : Nat) (kvs : List (String × Json)) :
     decVal fnSig (fuel + 1) (.obj kvs) = (do
       match ← asStr (← req "v" kvs) with
